@@ -23,6 +23,8 @@ use tracing::{debug, instrument, warn};
 mod client;
 mod server;
 pub(crate) mod utils;
+#[cfg(eigerco_lumina_verif)]
+pub mod verif_hx;
 
 use crate::p2p::P2pError;
 use crate::p2p::header_ex::client::HeaderExClientHandler;
